@@ -89,6 +89,8 @@ def case_strategy(draw):
         'repeat': draw(st.sampled_from([1, 1, 2, 3])),
         # pad the bulk element so that the encoded data set is an exact multiple of the fragment size (+delta)
         'align': draw(st.sampled_from([None, None, 0, 0, 1, -1])),
+        # directory storage: a file for this instance UID is already there (stored by an earlier server run)
+        'preexisting': draw(st.booleans()),
     }
 
 
@@ -127,6 +129,11 @@ def run_case(case):
                 Srv.get_file = get_file
             ae = Srv('SRV', 0, [ts], case['server_max'])
         ae.add_scp(sopclass.storage_scp)
+        old_name = os.path.join(tmp, '%s.dcm' % case['ds']['SOPInstanceUID'])
+        old_content = b'stored by an earlier run of the server ' * 20
+        if case.get('preexisting') and case['reception'] == 'directory':
+            with open(old_name, 'wb') as fh:
+                fh.write(old_content)
         sent = []
         frag = min(case['client_max'], case['server_max']) - 6
         for k in range(case['repeat']):
@@ -201,6 +208,11 @@ def run_case(case):
                                 % (k + 1), case)
         if case['reception'] == 'directory':
             files = sorted(f for f in os.listdir(tmp) if not f.startswith('src_'))
+            if case.get('preexisting'):
+                if not os.path.exists(old_name) or open(old_name, 'rb').read() != old_content:
+                    raise Violation('%s:directory:clobbered-earlier-file' % PROP, 'a file stored before this server started was '
+                                    'overwritten or removed', case)
+                files.remove(os.path.basename(old_name))
             if len(files) != case['repeat']:
                 raise Violation('%s:directory:file-count' % PROP, '%d instances stored, %d files in the directory: %r'
                                 % (case['repeat'], len(files), files), case)
@@ -221,7 +233,7 @@ FIXED = [
     {'ds': {'SOPClassUID': svc.SC_STORAGE, 'SOPInstanceUID': '1.2.826.0.1.3680043.9.15.1', 'PatientName': 'Dup^One',
             'EncapsulatedDocument': {'len': 301, 'salt': 3}},
      'ts': 0, 'client_max': 16384, 'server_max': 128, 'source': 'memory', 'reception': 'directory',
-     'outcome': ['status', 0], 'repeat': 3, 'align': None},
+     'outcome': ['status', 0], 'repeat': 3, 'align': None, 'preexisting': True},
     {'ds': {'SOPClassUID': svc.CT_STORAGE, 'SOPInstanceUID': '1.2.826.0.1.3680043.9.15.2', 'PatientID': 'odd',
             'RedPaletteColorLookupTableData': {'len': 3000, 'salt': 9},
             'ReferencedStudySequence': [{'ReferencedSOPClassUID': svc.CT_STORAGE, 'ReferencedSOPInstanceUID': '1.2.3',
@@ -295,7 +307,7 @@ def run(ctx):
                        'exceeding %d s is inconclusive unless it reproduces in 3 of 3 attempts' % CASE_LIMIT,
                        'data sets compared by canonical re-encoding (explicit VR little endian) with pydicom']
     if ctx.thorough:
-        jobs = [{'n': 25, 'shrink': True, 'fixed': FIXED if i == 0 else []} for i in range(16)]
+        jobs = [{'n': 60, 'shrink': True, 'fixed': FIXED if i == 0 else []} for i in range(16)]
     else:
         jobs = [{'n': 6, 'shrink': False, 'fixed': [FIXED[i]] if i < len(FIXED) else []} for i in range(8)]
     parallel(ctx, shard, jobs)
